@@ -222,3 +222,60 @@ func VerifC15_ClusterClient() {
 	}
 	vpReach("end")
 }
+
+var vpBatchVals = [3]string{"first-value", "second", "3rd"}
+
+// VerifC15_PipelineBatch: a pipeline that queues two or three value-carrying commands (Put or GetPut, each of
+// solver-chosen kind, on keys of solver-chosen partitions, with different values), optionally with an ordinary
+// cluster-client Put issued between queueing and Exec, has the same effect as the same operations issued one by one:
+// after Exec every key holds exactly the value that was queued for it and every GetPut future returns the previous
+// value of its own key. (Buffers taken from sync.Pool are reused most-recent-first in the engine.)
+func VerifC15_PipelineBatch() {
+	const members, parts = 2, 2
+	cl := dmap.VerifNewCluster(members, parts)
+	cc := vpNewClusterClient(cl, members, parts)
+	ctx := context.Background()
+	cdm, err := cc.NewDMap("d")
+	vpAssume(err == nil)
+	cd := cdm.(*ClusterDMap)
+	n := 2 + vpChoose("n", 2)
+	var keys [3]string
+	for i := 0; i < n; i++ {
+		keys[i] = cl.KeyForPartition("d", uint64(vpChoose("partition", parts)), i)
+		vpAssume(cl.DMap(0, "d").Put(ctx, keys[i], "old-"+vpBatchVals[i], nil) == nil)
+	}
+	pipe, perr := cd.Pipeline()
+	vpAssume(perr == nil)
+	var puts [3]*FuturePut
+	var getputs [3]*FutureGetPut
+	for i := 0; i < n; i++ {
+		if vpChoose("kind", 2) == 0 {
+			f, ferr := pipe.Put(ctx, keys[i], vpBatchVals[i])
+			vpAssume(ferr == nil)
+			puts[i] = f
+		} else {
+			f, ferr := pipe.GetPut(ctx, keys[i], vpBatchVals[i])
+			vpAssume(ferr == nil)
+			getputs[i] = f
+		}
+	}
+	if vpChoose("interleaved", 2) == 1 {
+		vpAssume(cd.Put(ctx, cl.KeyForPartition("d", 0, 5), "an unrelated and rather longer value") == nil)
+	}
+	vpAssert(pipe.Exec(ctx) == nil, "exec-succeeds")
+	for i := 0; i < n; i++ {
+		if puts[i] != nil {
+			vpAssert(puts[i].Result() == nil, "pipelined-put-succeeds")
+		} else {
+			old, gerr := getputs[i].Result()
+			vpAssert(gerr == nil && old != nil, "pipelined-getput-succeeds")
+			if gerr == nil && old != nil {
+				s, _ := old.String()
+				vpAssert(s == "old-"+vpBatchVals[i], "pipelined-getput-returns-its-keys-previous-value")
+			}
+		}
+		v, _, ok := cl.Stored("d", keys[i])
+		vpAssert(ok && string(v) == vpBatchVals[i], "pipelined-write-stores-its-own-value")
+	}
+	vpReach("end")
+}
